@@ -135,6 +135,58 @@ def tableProblems (groups : List (List ORow)) : List (String × String) := Id.ru
         | [] => pure ()
   pure probs.reverse
 
+/-- C04, stated on the parsed tree: ways of choosing one alternative of a component. Values
+    joined by AND/OR/XOR/bAND are alternatives; two combinations inside one component (wAND)
+    are chosen independently. -/
+partial def choices : PNode → Nat
+  | .comb op _ _ _ _ l r => if op = opWAND then choices l * choices r else choices l + choices r
+  | .empty => 0
+  | _ => 1
+
+/-- expected number of atomic statements of one top-level statement: product over its
+    components (a nested statement or a combination of nested statements is one value) -/
+def expectedRows (fs : PStmt) : Nat :=
+  fs.foldl (fun acc p => if Tab.isComplexField p.1 then acc else acc * max 1 (choices p.2)) 1
+
+/-- the alternatives of a component, each as the leaf texts that one atomic statement must show
+    together (both sides of a wAND, one side of any other operator) -/
+partial def altTexts : PNode → List (List String)
+  | .comb op _ _ _ _ l r =>
+    if op = opWAND then (altTexts l).flatMap (fun a => (altTexts r).map (fun b => a ++ b)) else altTexts l ++ altTexts r
+  | .leaf t _ _ _ _ => [[String.ofList t]]
+  | _ => []
+
+partial def hasWAND : PNode → Bool
+  | .comb op _ _ _ _ l r => op = opWAND || hasWAND l || hasWAND r
+  | _ => false
+
+/-- for components that contain several combinations (wAND): every atomic statement shows one
+    complete alternative, and every alternative is shown by some atomic statement -/
+def wandContentProblems (root : PNode) (groups : List (List ORow)) : List (String × String) :=
+  let tops := Tab.topStmts root []
+  (tops.zip groups).flatMap fun ((fs, _), g) =>
+    let own := g.filter (fun r => !(sStarts (cell r "Statement ID") "{"))
+    fs.flatMap fun (i, n) =>
+      if Tab.isComplexField i || !(hasWAND n) then [] else
+      let col := String.ofList n.meta.ct
+      let alts := altTexts n
+      let shows := fun (r : ORow) (a : List String) => a.all (fun t => ((cell r col).splitOn t).length > 1)
+      let badRow := own.find? (fun r => !(alts.any (shows r)))
+      let missing := alts.find? (fun a => !(own.any (fun r => shows r a)))
+      (match badRow with
+        | some r => [("C04", s!"row {cell r "Statement ID"}: cell {col}='{cell r col}' shows no complete alternative of the component (alternatives: {alts})")]
+        | none => []) ++
+      (match missing with
+        | some a => [("C04", s!"no row shows the alternative {a} of component {col}")]
+        | none => [])
+
+def rowCountProblems (root : PNode) (groups : List (List ORow)) : List (String × String) :=
+  let tops := Tab.topStmts root []
+  (tops.zip groups).filterMap fun ((fs, _), g) =>
+    let own := g.filter (fun r => !(sStarts (cell r "Statement ID") "{"))
+    if own.length = expectedRows fs then none
+    else some ("C04", s!"{own.length} atomic statements in the table, {expectedRows fs} ways of choosing one alternative per component")
+
 def obsORows (o : ObsLine) : List (List ORow) :=
   (obsGroups o).map (fun g => g)
 
@@ -143,7 +195,10 @@ def judgeTabWith (which : List String) (c : Case) (o : ObsLine) : Verdict :=
   match judgeTab true c o with
   | .ok =>
     if o.st ≠ "ok" then .ok else
-    match (tableProblems (obsORows o)).filter (fun p => which.contains p.1) with
+    let countProbs := match (o.obs.getObjVal? "parse").toOption.bind (fun pj => (pj.getObjVal? "nodes").toOption) with
+      | some (.arr #[n]) => (match nodeOfJson n with | .ok pn => rowCountProblems pn (obsORows o) ++ wandContentProblems pn (obsORows o) | .error _ => [])
+      | _ => []
+    match (tableProblems (obsORows o) ++ countProbs).filter (fun p => which.contains p.1) with
     | [] => .ok
     | (p, d) :: _ => .violation s!"{p} oracle on the implementation's table" d
   | v => v
@@ -170,9 +225,15 @@ def genTabStmt (i : Nat) : G (Stmt × String) := do
   | 2 => do let s ← genNestedSup { depth := 1, pairs := true }; pure (s, "pairs")
   | _ => do let s ← genSupC02 3; pure (s, "nested-deep")
 
-/-- bound on the number of rows a statement produces (product of alternatives), from the model -/
-def rowBound (s : Stmt) : Nat :=
-  ((Tab.exportAll { ext := true } (denoteTop s) (str "1")).map List.length).foldl (· + ·) 0
+/-- number of rows a statement produces (product of alternatives per statement, summed over the
+    statement and all its nested statements), computed without building the table -/
+partial def rowsOfNode : PNode → Nat
+  | .stmt _ fs => expectedRows fs + (fs.map (fun p => if Tab.isComplexField p.1 then rowsOfNode p.2 else 0)).foldl (· + ·) 0
+  | .pairs _ ns => (ns.map rowsOfNode).foldl (· + ·) 0
+  | .comb _ _ _ _ _ l r => rowsOfNode l + rowsOfNode r
+  | _ => 0
+
+def rowBound (s : Stmt) : Nat := rowsOfNode (denoteTop s)
 
 def genTabFamily (tagp : String) (tier : String) (seed : Nat) (both : Bool) : Array Case := Id.run do
   let n := if tier = "thorough" then 2500 else 200
@@ -190,6 +251,18 @@ def genTabFamily (tagp : String) (tier : String) (seed : Nat) (both : Bool) : Ar
         ((Stmt.mk [.ann { sym := Sym.A } true (.leaf (str "regulator")), .ann { sym := Sym.I } true (.leaf (str "acts")), .nested { sym := Sym.Cac } inner]),
          "private-inside-nested", if hasPriv && kfC16 inner = "" then "C19-core-text-omits-private-properties-of-nested-statement" else if kfC16 inner ≠ "" then "skip" else "")
       else (s, kind, "")
+    let (s, kind, kfExtra) :=
+      if tagp = "c04" && i % 20 = 19 then
+        let s2 := Id.run do
+          let mut best : Stmt := s
+          for k in [0:40] do
+            let (c, _) := genC01 { suffixes := false, maxDepth := 3, maxComps := 2, nestedMulti := true } ⟨UInt64.ofNat (seed * 77 + i * 41 + k)⟩
+            if hasNestedMulti c then
+              best := c
+              break
+          pure best
+        (s2, "nested-wAND", if hasNestedMulti s2 then "C04-wand-inside-combination" else "")
+      else (s, kind, kfExtra)
     if kfExtra = "skip" then continue
     if rowBound s > 256 then continue
     let (id, rng'') := pickA idPoolTab rng
